@@ -816,20 +816,20 @@ func (ww *conversionVisitor) setJ5Ext(node sourcewalk.SourceNode, dest *descript
 	// as the Proto extension.
 	j5ExtRefl := j5Ext.ProtoReflect()
 	if j5ExtRefl.IsValid() {
-		j5ExtFields := j5ExtRefl.Descriptor().Fields()
+		destFields := extTypedRefl.Descriptor().Fields()
 
 		// Copy each field from the J5 extension to the Proto extension.
 		err := RangeField(j5ExtRefl, func(fd protoreflect.FieldDescriptor, v protoreflect.Value) error {
-			destField := j5ExtFields.ByName(fd.Name())
+			destField := destFields.ByName(fd.Name())
 			if destField == nil {
-				return fmt.Errorf("No equivalent for %s in %s", fd.FullName(), j5ExtRefl.Descriptor().FullName())
+				return fmt.Errorf("No equivalent for %s in %s", fd.FullName(), extTypedRefl.Descriptor().FullName())
 			}
 
 			if destField.Kind() != fd.Kind() {
-				return fmt.Errorf("Field %s has different kind in %s", fd.FullName(), j5ExtRefl.Descriptor().FullName())
+				return fmt.Errorf("Field %s has different kind in %s", fd.FullName(), extTypedRefl.Descriptor().FullName())
 			}
 
-			extTypedRefl.Set(fd, j5ExtRefl.Get(destField))
+			extTypedRefl.Set(destField, v)
 			return nil
 		})
 		if err != nil {
